@@ -140,40 +140,61 @@ def _walk(root):
     return out
 
 
+_CRATE_OF = {}  # variant key -> built overlay crate dir (registered by the runner)
+
+
+def register_overlay(variant_key, crate_dir):
+    _CRATE_OF[variant_key] = crate_dir
+
+
 def tree_hash(variant_key, harness=None):
-    """Content hash of everything a verdict of `harness` depends on: /repo's
-    sources, the common harness files, the harness's own file and the harness
-    files it imports (transitively), the overlay builder (rewrites, generated
-    files), the overlay variant."""
+    """Content hash of everything a verdict of `harness` depends on, taken from
+    the BUILT overlay (so it reflects /repo's current sources after the counted
+    rewrites, the generated files, and the harness tree): every file of
+    crate/src except harness modules (internal/verif/h_*.rs) that the harness's
+    own module does not import, directly or transitively."""
     key = (variant_key, harness)
     if key in _TREE_HASH:
         return _TREE_HASH[key]
-    verif = os.path.dirname(os.path.dirname(os.path.abspath(__file__)))
-    repo = os.environ.get("VERIF_REPO", "/repo")
-    hd = os.path.join(verif, "harness")
-    files = _walk(os.path.join(repo, "src")) + [os.path.join(repo, "Cargo.toml"), os.path.join(repo, "Cargo.lock"),
-             os.path.join(verif, "vlib", "overlay.py")]
-    if harness is None or re.match(r"dir_(rm|ins|look)_", harness):
-        files.append(os.path.join(verif, "vlib", "shapes.py"))  # generates the tree-shape instances
-    # mods.rs only lists the harness modules: adding one does not change any other harness's verdict
-    common = sorted(f for f in os.listdir(hd) if f.endswith(".rs") and not f.startswith("h_") and f != "mods.rs")
-    files += [os.path.join(hd, f) for f in common]
-    if harness is None:
-        files += [os.path.join(hd, f) for f in sorted(os.listdir(hd)) if f.startswith("h_")]
-    else:
+    crate = _CRATE_OF.get(variant_key)
+    if crate is None:
+        raise KeyError("overlay for variant %r not registered" % (variant_key,))
+    src = os.path.join(crate, "src")
+    vdir = os.path.join(src, "internal", "verif")
+    keep = None
+    if harness is not None:
         stem = qualify(harness).split("::")[-2]
-        todo, seen = [stem], set()
+        todo, keep = [stem], set()
         while todo:
             m = todo.pop()
-            if m in seen:
+            if m in keep:
                 continue
-            seen.add(m)
-            fp = os.path.join(hd, m + ".rs")
+            keep.add(m)
+            fp = os.path.join(vdir, m + ".rs")
             if os.path.exists(fp):
-                for dep in re.findall(r"use super::(h_\w+)", open(fp).read()):
+                txt = open(fp).read()
+                for dep in re.findall(r"use super::(h_\w+)", txt):
                     todo.append(dep)
-        files += [os.path.join(hd, m + ".rs") for m in sorted(seen)]
-    _TREE_HASH[key] = _sha(files, repr(variant_key).encode() + b"kani-0.68.0")
+                for inc in re.findall(r'include!\("(h_\w+)\.rs"\)', txt):
+                    todo.append(inc)
+    files = []
+    for f in _walk(src):
+        rel = os.path.relpath(f, src)
+        base = os.path.basename(f)
+        if os.path.dirname(f) == vdir and base.startswith("h_") and keep is not None and base[:-3] not in keep:
+            continue
+        if os.path.dirname(f) == vdir and base == "mods.rs":
+            continue  # only lists harness modules
+        files.append((rel, f))
+    import hashlib
+    h = hashlib.sha256()
+    for rel, f in sorted(files):
+        h.update(rel.encode())
+        h.update(open(f, "rb").read())
+    for extra in ("Cargo.toml", "Cargo.lock"):
+        h.update(open(os.path.join(crate, extra), "rb").read())
+    h.update(b"kani-0.68.0")
+    _TREE_HASH[key] = h.hexdigest()
     return _TREE_HASH[key]
 
 
